@@ -275,8 +275,18 @@ func TestVerifReplay(t *testing.T) {
 	rpFile := filepath.Join(dir, "replay.json")
 	os.WriteFile(rpFile, data, 0644)
 	rr.File = rpFile
-	cmd := exec.Command("go", "test", "-v", "-vet=off", "-count=1", "-run", "^TestVerifReplay$", "-overlay", ovFile, "./"+h.Pkg)
-	cmd.Dir = RepoDir
+	// build the test binary with the overlay, then run it (works for packages
+	// that exist only in the overlay as well)
+	bin := filepath.Join(dir, "replay.test")
+	build := exec.Command("go", "test", "-c", "-vet=off", "-o", bin, "-overlay", ovFile, "./"+h.Pkg)
+	build.Dir = RepoDir
+	build.Env = goEnv()
+	if bout, err := runTimeout(build, 5*time.Minute); err != nil {
+		rr.Verdict = "norun: build: " + firstN(string(bout), 600)
+		return rr, nil
+	}
+	cmd := exec.Command(bin, "-test.v", "-test.run", "^TestVerifReplay$", "-test.timeout", "120s")
+	cmd.Dir = c.Scratch
 	cmd.Env = append(goEnv(), "VRT_REPLAY="+rpFile)
 	out, _ := runTimeout(cmd, 5*time.Minute)
 	m := regexp.MustCompile(`(?m)^VERDICT: (.*)$`).FindSubmatch(out)
